@@ -480,6 +480,13 @@ def r6(model: Model, rep: Report):
     n_paths = 0
     link_of_op = ("attr", operation, "relation_link")
     has_rel = t_not(t_cmp("is", ("attr", link_of_op, "reference_node"), NONE))
+    unread: List[str] = []
+
+    def _opaque_guard(cond) -> Optional[str]:
+        """an attribute of the operation's link, other than reference_node, that the path condition tests (a property the link classes define each in their own way)"""
+        for a_ in subterms(cond, lambda x: x[0] == "attr" and x[1] == link_of_op and x[2] != "reference_node"):
+            return a_[2]
+        return None
     for p in paths:
         if p.exit == "raise":
             continue
@@ -530,6 +537,9 @@ def r6(model: Model, rep: Report):
             if final_link is None:
                 ok = _implies(ev, p.cond, t_not(has_rel))
                 why = "appended to the root although the operation keeps a link with a reference"
+                if not ok and _opaque_guard(p.cond):
+                    unread.append(f"the guard reads relation_link.{_opaque_guard(p.cond)}, which the link classes define each in their own way; whether it means 'no reference' is not read")
+                    continue
             else:
                 ok = final_link == ("call", ("fn", "RelationLink.no_relation"), (), ()) or \
                     (final_link[0] == "new" and final_link[1] == "RelationLink" and dict(final_link[2]).get("_reference_node") == NONE)
@@ -550,6 +560,9 @@ def r6(model: Model, rep: Report):
             if ok:
                 given = list(parent[2]) + [v for _, v in parent[3]]
                 ok = given == [("attr", link_of_op, "reference_node")] and final_link is None
+            if ok and not _implies(ev, p.cond, has_rel) and _opaque_guard(p.cond):
+                unread.append(f"the guard reads relation_link.{_opaque_guard(p.cond)}, which the link classes define each in their own way; whether it means 'has a reference' is not read")
+                continue
             ok = ok and _implies(ev, p.cond, has_rel)
             rep.check(ok, "C01.R6", construct + "[relation]", f.loc, found=f"parent={show(parent) if parent else None}, link={show(final_link) if final_link else 'unchanged'}",
                       required="parent = node of relation_link.reference_node, link untouched",
@@ -558,6 +571,12 @@ def r6(model: Model, rep: Report):
         rep.check(p.exit == "return" and rv is not None and returns_receiver(model, ev, rv, graph), "C01.R6", construct + "[returns-graph]", f.loc, found=show(rv) if rv else p.exit, required="return graph",
                   what="add_to_graph does not hand back the graph it updated", detail="return")
     rep.floor("feasible paths of add_to_graph", n_paths, 3)
+    amb = sorted({a_ for a_ in ev.ambiguous if a_.startswith(("IRelationLink.", "RelationLink.", "IRelationComponent."))})
+    if amb:
+        unread.append(f"reads {', '.join(amb)} through the operation's link, a property that the link classes define each in their own way: which body runs depends on the link "
+                      "an operation holds, and the placement cases are decided for one body only")
+    if unread:
+        raise AnalysisError(f"{construct}: " + "; ".join(sorted(set(unread))))
     rep.analysed["C01.R6 feasible paths"] = n_paths
 
 
